@@ -5,7 +5,7 @@ V="$(cd "$(dirname "$0")/.." && pwd)"
 REPO="${VERIF_REPO:-/repo}"
 export GOFLAGS=-mod=mod GOPROXY=off GOSUMDB=off GOTOOLCHAIN=local
 mkdir -p "$V/work/bin" "$V/coq/gen"
-if [ ! -x "$V/work/bin/gotrans" ] || [ "$V/gotrans/main.go" -nt "$V/work/bin/gotrans" ]; then
+if [ ! -x "$V/work/bin/gotrans" ] || [ -n "$(find "$V/gotrans" -name '*.go' -newer "$V/work/bin/gotrans" 2>/dev/null)" ]; then
   (cd "$V/gotrans" && go build -o "$V/work/bin/gotrans" .)
 fi
 "$V/work/bin/gotrans" "$REPO" "$V/gotrans/targets.json" "$V/coq/gen/Gen.v.new"
